@@ -542,4 +542,18 @@ theorem node_migration_listener_order_counterexample :
     (mpTwo.map (fun c => evStep false c (.upd 0 0 true mpObj { mpObj with node := 3 }))).map
       (fun c => (c.infos.map (·.uid), c.onNode, c.matchable)) = List.replicate 2 ([], [(3, 1)], [(3, 1)]) := by decide
 
+/-- why the theorems assume that one informer event is processed by ALL listeners before the next one: if a profile's
+    plugin listener lags behind the scheduler-wide one by a whole event (update, then delete), the global handler's
+    DeleteReservation comes first, the lagging OnUpdate re-creates the reservation and the lagging OnDelete only marks
+    it Failed: a deleted reservation stays in that profile's primary map and reservationsOnNode for good (reproduced on
+    the unchanged code: the directed part of the `profiles` stream delivers exactly this interleaving with one and two
+    profiles; open known finding C05:profile-index-dangling:lagging-listener) -/
+theorem lagging_listener_counterexample :
+    let c0 := onAdd Cache.empty mpObj
+    let lagged := onDelete (onUpdate (deleteReservation c0 1 2) mpObj) mpObj
+    let inOrder := deleteReservation (onDelete (onUpdate c0 mpObj) mpObj) 1 2
+    (inOrder.infos.map (·.uid), inOrder.onNode) = ([], []) ∧
+    ¬ ((lagged.infos.map (·.uid), lagged.onNode) = ([], [])) ∧
+    (lagged.infos.map (fun r => (r.uid, r.phase)), lagged.onNode, lagged.matchable) = ([(1, 4)], [(2, 1)], []) := by decide
+
 end KoordVerif.C05
